@@ -592,3 +592,53 @@ Proof.
   repeat first [rewrite map_map | rewrite zip_map | rewrite zip_map_r | rewrite zip_map_l].
   f_equal. apply map_ext. intros [x [y z]]. simpl. exact (sel_apply3_nums g x [y; z]).
 Qed.
+
+(* ====================================================================== *)
+(* keyword calls: Function.__call__ filtering, one argument record for every operand *)
+
+Lemma prim_call_filters : forall p pos kw,
+  prim_call p (pos, kw)
+  = prim_call p (firstn (length (p_params p)) pos, filter (fun e => declares (p_params p) (fst e)) kw).
+Proof.
+  intros p pos kw. unfold prim_call. simpl fst. simpl snd.
+  rewrite firstn_firstn, Nat.min_id.
+  replace (filter (fun e => declares (p_params p) (fst e)) (filter (fun e => declares (p_params p) (fst e)) kw))
+    with (filter (fun e => declares (p_params p) (fst e)) kw); [reflexivity|].
+  induction kw as [|e kw IH]; [reflexivity|]. simpl.
+  destruct (declares (p_params p) (fst e)) eqn:E; simpl; [rewrite E; f_equal; exact IH|exact IH].
+Qed.
+
+(* a keyword the function does not declare is ignored; surplus positional arguments are ignored *)
+Lemma prim_call_ignores_undeclared : forall p pos kw n v,
+  declares (p_params p) n = false -> prim_call p (pos, (n, v) :: kw) = prim_call p (pos, kw).
+Proof. intros p pos kw n v H. unfold prim_call. simpl. rewrite H. reflexivity. Qed.
+Lemma prim_call_ignores_surplus : forall p pos extra kw,
+  length (p_params p) <= length pos -> prim_call p (pos ++ extra, kw) = prim_call p (pos, kw).
+Proof.
+  intros p pos extra kw H. unfold prim_call. simpl fst.
+  rewrite firstn_app. replace (length (p_params p) - length pos) with 0 by lia.
+  rewrite firstn_O, app_nil_r. reflexivity.
+Qed.
+
+(* (f op g)(args, kw) = f(args, kw) op g(args, kw), every leaf primitive called with the same
+   (filtered) arguments: the laws above instantiated with the environment of the call *)
+Lemma keyword_call_binop : forall prims (c : callargs) fx g a b,
+  nf a = true -> nf b = true -> is_fn a || is_fn b = true ->
+  callv (env_of prims c) fx (apply_binop g a b)
+  = ONum (snd g (fval (env_of prims c) a) (fval (env_of prims c) b))
+  /\ (forall id, fval (env_of prims c) (OFn id)
+                 = match nth_error prims id with Some p => prim_call p c | None => NErr end).
+Proof.
+  intros prims c fx g a b Ha Hb Hf. split; [|reflexivity].
+  apply (lift_binop_hom_fn (env_of prims c) fx g a b Ha Hb Hf).
+Qed.
+Lemma keyword_call_unop : forall prims (c : callargs) fx g a,
+  nf a = true -> is_fn a = true ->
+  callv (env_of prims c) fx (apply_unop g a) = ONum (snd g (fval (env_of prims c) a)).
+Proof. intros prims c fx g a Ha Hf. apply (lift_unop_hom_fn (env_of prims c) fx g a Ha Hf). Qed.
+(* n-ary: the receiver AND every extra operand function are evaluated on the same argument record *)
+Lemma keyword_call_narop : forall prims (c : callargs) g a args x ys,
+  is_fn a = true -> call (env_of prims c) true a = ONum x ->
+  Forall2 (fun o y => callv (env_of prims c) true o = ONum y /\ is_err o = false) args ys ->
+  call (env_of prims c) true (apply_narop g a args) = ONum (snd g x ys).
+Proof. intros prims c. apply (lift_narop_hom (env_of prims c)). Qed.
